@@ -573,7 +573,9 @@ pub mod inner {
             T: Clone,
         {
             if self.is_contiguous() {
-                self.data.fill(val);
+                // Data may extend past the last row; leave the surplus alone
+                let (w, h) = self.dims;
+                self.data[..w as usize * h as usize].fill(val);
             } else {
                 self.rows_mut()
                     .for_each(|row| row.fill(val.clone()));
